@@ -19,6 +19,7 @@ from pest.grammar.rule import COMPOUND
 from pest.grammar.rule import SILENT
 from pest.grammar.rule import SILENT_ATOMIC
 from pest.grammar.rule import BuiltInRule
+from pest.grammar.rule import SkipRule
 
 from .expression import Expression
 from .optimizers.inliners import inline_builtin
@@ -123,15 +124,19 @@ class Optimizer:
         """Return `True` if `rule` never matches implicit whitespace or comments."""
         if "WHITESPACE" not in rules and "COMMENT" not in rules:
             return True
-        return bool(rule.modifier & (ATOMIC | COMPOUND)) or rule.name in (
-            "WHITESPACE",
-            "COMMENT",
-            "SKIP",
+        return (
+            bool(rule.modifier & (ATOMIC | COMPOUND))
+            or rule.name in ("WHITESPACE", "COMMENT")
+            or isinstance(rule, SkipRule)
         )
 
     def _optimize_skip_rule(self, rules: MutableMapping[str, Rule]) -> None:
         """Combine WHITESPACE and COMMENT into a single SKIP rule."""
         # NOTE: COMMENT and WHITESPACE are hard coded to always be atomic.
+
+        if "SKIP" in rules:
+            # The grammar has a rule of its own with that name.
+            return
 
         comment = rules.get("COMMENT")
         whitespace = rules.get("WHITESPACE")
@@ -141,7 +146,9 @@ class Optimizer:
             return
 
         if comment and comment.modifier & SILENT:
-            rules["SKIP"] = Rule("SKIP", Repeat(comment.expression), SILENT_ATOMIC)
+            rules["SKIP"] = SkipRule(
+                "SKIP", Repeat(comment.expression), SILENT_ATOMIC
+            )
 
         elif (
             whitespace
@@ -150,7 +157,7 @@ class Optimizer:
         ):
             expr = squash(whitespace.expression.expressions, OptimizedChoiceRepeat())
             if expr and preserves_order(expr.choices):
-                rules["SKIP"] = Rule("SKIP", expr, SILENT_ATOMIC)
+                rules["SKIP"] = SkipRule("SKIP", expr, SILENT_ATOMIC)
 
     def _run_once(
         self,
